@@ -43,7 +43,7 @@ def allowed_with_ties(srt, W):
     if W is None or len(srt) <= W:
         return len(srt)
     k, last = W, srt[W - 1]
-    while k < len(srt) and abs(srt[k] - last) <= 1e-12 + 1e-9 * abs(last):
+    while k < len(srt) and (srt[k] == last or abs(srt[k] - last) <= 1e-12 + 1e-9 * abs(last)):
         last = srt[k]
         k += 1
     return k
